@@ -1,0 +1,78 @@
+//go:build verif
+// +build verif
+
+package expiration
+
+// Contracts for the deductive verifier in /verif (comment-only file, build tag `verif`).
+
+// ---- bucket: the entries of one second, ordered by deadline (C04) ------------------------------
+//@ pred bucket_has(b *bucket, v interface{}, d time.Time) := exists i int :: {b.data[i]} 0 <= i && i < len(b.data) && b.data[i].value == v && b.data[i].deadline == d
+//@ pred bucket_sorted(b *bucket) := forall i int, j int :: {b.data[i], b.data[j]} 0 <= i && i < j && j < len(b.data) ==> !tless(b.data[j].deadline, b.data[i].deadline)
+
+//@ func (*bucket).put(v interface{}, deadline time.Time)
+//@   requires b != nil && bucket_sorted(b)
+//@   ensures bucket_sorted(b) && len(b.data) == old(len(b.data)) + 1
+//@   ensures base(b.data) == old(base(b.data)) || fresh(b.data)
+//@   ensures forall x interface{}, d time.Time :: bucket_has(b, x, d) <==> (old(bucket_has(b, x, d)) || (x == v && d == deadline))
+//@   modifies b.data, elems(b.data)
+
+// C04: cancelling the timeout of one entry removes exactly that entry (same value AND same deadline) and leaves every other
+// entry of the bucket alone, also when several entries share a deadline
+//@ func (*bucket).delete(v interface{}, deadline time.Time) (r bool)
+//@   requires b != nil && bucket_sorted(b)
+//@   ensures bucket_sorted(b)
+//@   ensures r <==> old(bucket_has(b, v, deadline))
+//@   ensures base(b.data) == old(base(b.data)) || fresh(b.data)
+//@   ensures len(b.data) == old(len(b.data)) - (if r then 1 else 0)
+//@   ensures forall x interface{}, d time.Time :: !(x == v && d == deadline) ==> (bucket_has(b, x, d) <==> old(bucket_has(b, x, d)))
+//@   modifies b.data, elems(b.data)
+//@ loop (*bucket).delete#1
+//@   invariant 0 <= idx && idx <= len(b.data) && b.data == old(b.data)
+//@   invariant forall k int :: {b.data[k]} 0 <= k && k < idx ==> !(b.data[k].value == v && b.data[k].deadline == deadline)
+//@   invariant forall k int :: {b.data[k]} idx <= k && k < len(b.data) ==> !tless(b.data[k].deadline, deadline)
+
+// ---- pqList: buckets of one second each, in a map and in a heap ordered by deadline (C04) ------
+// Representation invariant: the map and the heap hold exactly the same buckets; each bucket is filed under its own
+// deadline and holds items that round to it; no element of the heap is earlier than the root.
+//@ pred in_heap(pq *pqList, b *bucket) := exists i int :: {pq.pq[i]} 0 <= i && i < len(pq.pq) && pq.pq[i] == b
+//@ pred pql_wf(pq *pqList) := pq != nil && pq.buckets != nil
+//@     && (forall k time.Time :: {pq.buckets[k]} k in pq.buckets ==> pq.buckets[k] != nil && pq.buckets[k].deadline == k && bucket_sorted(pq.buckets[k]) && in_heap(pq, pq.buckets[k]))
+//@     && (forall i int :: {pq.pq[i]} 0 <= i && i < len(pq.pq) ==> pq.pq[i] != nil && pq.pq[i].deadline in pq.buckets && pq.buckets[pq.pq[i].deadline] == pq.pq[i])
+//@     && (forall i int :: {pq.pq[i]} 0 <= i && i < len(pq.pq) ==> !tless(pq.pq[i].deadline, pq.pq[0].deadline))
+//@     && (forall i int, j int :: {pq.pq[i], pq.pq[j]} 0 <= i && i < j && j < len(pq.pq) ==> pq.pq[i] != pq.pq[j])
+//@     && (forall k1 time.Time, k2 time.Time :: {pq.buckets[k1], pq.buckets[k2]} k1 in pq.buckets && k2 in pq.buckets && k1 != k2 ==> base(pq.buckets[k1].data) != base(pq.buckets[k2].data) || len(pq.buckets[k1].data) == 0 || len(pq.buckets[k2].data) == 0)
+// the abstract content: the set of (value, deadline) pairs that still have a timeout pending
+//@ pred pql_has(pq *pqList, v interface{}, d time.Time) := tround(d) in pq.buckets && bucket_has(pq.buckets[tround(d)], v, d)
+
+//@ func (*pqueue).Peek() (b *bucket)
+//@   requires pq != nil
+//@   ensures len(*pq) == 0 ==> b == nil
+//@   ensures len(*pq) > 0 ==> b == (*pq)[0]
+//@   modifies nothing
+
+//@ func (*pqList).insert(id interface{}, expireAt time.Time)
+//@   requires pql_wf(pq)
+//@   ensures pql_wf(pq)
+//@   ensures forall x interface{}, d time.Time :: pql_has(pq, x, d) <==> (old(pql_has(pq, x, d)) || (x == id && d == expireAt))
+
+// C04: cancelling one timeout leaves every other pending timeout alone
+//@ func (*pqList).delete(id interface{}, expireAt time.Time) (r bool)
+//@   requires pql_wf(pq)
+//@   ensures pql_wf(pq)
+//@   ensures forall x interface{}, d time.Time :: !(x == id && d == expireAt) ==> (pql_has(pq, x, d) <==> old(pql_has(pq, x, d)))
+
+// C04: a sweep removes exactly the buckets whose second lies before `now` -- from the heap AND from the map, so that a later
+// insert for the same second starts a new bucket -- and leaves the later ones alone
+//@ func (*pqList).Expire(now time.Time) (out []interface{})
+//@   requires pql_wf(pq)
+//@   ensures pql_wf(pq)
+//@   ensures forall k time.Time :: {pq.buckets[k]} k in pq.buckets <==> (old(k in pq.buckets) && !tless(k, now))
+//@   ensures forall x interface{}, d time.Time :: !tless(tround(d), now) ==> (pql_has(pq, x, d) <==> old(pql_has(pq, x, d)))
+//@ loop (*pqList).Expire#1
+//@   invariant pql_wf(pq) && wlocked(pq.mtx)
+//@   invariant forall k time.Time :: {pq.buckets[k]} k in pq.buckets ==> old(k in pq.buckets) && pq.buckets[k] == old(pq.buckets[k])
+//@   invariant forall k time.Time :: {old(pq.buckets[k])} old(k in pq.buckets) && !tless(k, now) ==> k in pq.buckets
+//@ loop (*pqList).Expire#2
+//@   invariant -1 <= rangeindex && rangeindex < len(expired.data) && pql_wf(pq) && wlocked(pq.mtx) && expired != nil
+//@   invariant forall k time.Time :: {pq.buckets[k]} k in pq.buckets ==> old(k in pq.buckets) && pq.buckets[k] == old(pq.buckets[k])
+//@   invariant forall k time.Time :: {old(pq.buckets[k])} old(k in pq.buckets) && !tless(k, now) ==> k in pq.buckets
